@@ -1,0 +1,33 @@
+//go:build verif
+
+package segment
+
+// C09 (arithmetic between two vectors pairs series by their label sets): the
+// "labels need not match" shortcut of the metrics explorer entry point is only
+// sound while at most ONE operand of the formula is a multi-series vector.
+// ExecuteMultipleMetricsQuery counts the multi-series operands — an operand
+// whose selector was already evaluated (same hash, result taken from resMap)
+// is still an operand — and switches label matching back on when there is more
+// than one.  Ghosts opCountBefore / opIsMulti: the counter when the operand of
+// this iteration was looked up or stored, and whether that operand's result has
+// more than one series (set anew at both sites, because the calls in between
+// are unknown to the verifier and havoc ghost state too).
+// Checked by /verif/bin/govc.  Comment-only file.
+//@ ghostdecl opCountBefore int
+//@ ghostdecl opIsMulti int
+//@ func ExecuteMultipleMetricsQuery
+//@   props C09
+//@   assumecalleerequires
+//@   ghostinit ghost(0, "opCountBefore") == 0 && ghost(0, "opIsMulti") == 0
+//@   site mapread resMap[hashList[index]] #1:
+//@     ghostset ghost(0, "opCountBefore") = multiSeriesResultCount
+//@     ghostset ghost(0, "opIsMulti") = ite(ok && value != nil && len(value.Results) > 1, 1, 0)
+//@   site mapupdate resMap[hashList[index]] #1:
+//@     ghostset ghost(0, "opCountBefore") = multiSeriesResultCount
+//@     ghostset ghost(0, "opIsMulti") = ite(len(value.Results) > 1, 1, 0)
+//@   loop 1:
+//@     invariant [every-multi-series-operand-is-counted-also-a-repeated-selector] multiSeriesResultCount == ghost(0, "opCountBefore") + ghost(0, "opIsMulti")
+//@   site call ProcessQueryArithmeticAndLogical #1:
+//@     assert [label-matching-is-on-when-two-operands-are-multi-series] implies(multiSeriesResultCount > 1, !arg2)
+//@   note the goroutine that tracks the query state, the deferred summary logging and the state channel are outside the subset (their effects on the heap are havoc); a nil result in resMap is excluded (value != nil)
+//@ end
